@@ -76,7 +76,9 @@ func cfgPush(id int64, n int) string {
 
 // ---- the config StorageInterface driven through the database interface and the config API ----------------------
 
-var cfgTokens = []string{"pv", "pn", "pz", "de", "so", "sn", "pb", "sb", "rc", "px", "gt"}
+var cfgTokens = []string{"pv", "pn", "pz", "de", "so", "sn", "pb", "sb", "rc", "px", "gt", "pb", "sb", "pw", "pi"}
+
+var cfgTypeTokens = []string{"ti", "tb", "ta"}
 
 // cfgOps runs `cfgops <token>…` on two fresh options a and b under a prefix of their own, with subscriptions on a's
 // key, on the prefix and on another prefix; after all tokens the exact-key subscription is cancelled and `pv`, `so`
@@ -88,10 +90,34 @@ func cfgOps(id int64, toks []string) string {
 		return "err other:" + cfgErr.Error()
 	}
 	pre := fmt.Sprintf("c14/%d/", id)
-	for _, k := range []string{"a", "b"} {
-		if err := config.Register(&config.Option{Name: "C14 option " + k, Key: pre + k, Description: "verification", OptType: config.OptTypeString, DefaultValue: "x"}); err != nil {
-			return "err other:" + err.Error()
-		}
+	// option a is a string option; the type of option b is chosen by the first token (ti int, tb bool, ta string
+	// array; otherwise string): StorageInterface.Put converts the record's Value by option type
+	bType, bDefault := config.OptTypeString, interface{}("x")
+	bJSON := func(n int) string { return fmt.Sprintf(`"w%d"`, n) }
+	bVal := func(n int) interface{} { return fmt.Sprintf("t%d", n) }
+	bWrong := `5`
+	switch sel(toks, 0) {
+	case "ti":
+		bType, bDefault = config.OptTypeInt, int64(1)
+		bJSON = func(n int) string { return fmt.Sprintf(`%d`, n) }
+		bVal = func(n int) interface{} { return int64(n) }
+		bWrong = `"five"`
+	case "tb":
+		bType, bDefault = config.OptTypeBool, false
+		bJSON = func(n int) string { return fmt.Sprintf(`%v`, n%2 == 0) }
+		bVal = func(n int) interface{} { return n%2 == 0 }
+		bWrong = `"yes"`
+	case "ta":
+		bType, bDefault = config.OptTypeStringArray, []string{"x"}
+		bJSON = func(n int) string { return fmt.Sprintf(`["u%d","v"]`, n) }
+		bVal = func(n int) interface{} { return []string{fmt.Sprintf("u%d", n)} }
+		bWrong = `[1,2]` // (a plain string is accepted by the accessor as a one-element list)
+	}
+	if err := config.Register(&config.Option{Name: "C14 option a", Key: pre + "a", Description: "verification", OptType: config.OptTypeString, DefaultValue: "x", ValidationRegex: "^[a-z0-9]+$"}); err != nil {
+		return "err other:" + err.Error()
+	}
+	if err := config.Register(&config.Option{Name: "C14 option b", Key: pre + "b", Description: "verification", OptType: bType, DefaultValue: bDefault}); err != nil {
+		return "err other:" + err.Error()
 	}
 	db := database.NewInterface(&database.Options{Local: true, Internal: true})
 	exact, err1 := db.Subscribe(query.New("config:" + pre + "a"))
@@ -125,9 +151,14 @@ func cfgOps(id int64, toks []string) string {
 		case "sn":
 			err = config.SetConfigOption(pre+"a", nil)
 		case "pb":
-			err = putJSON(pre+"b", fmt.Sprintf(`{"Value":"w%d"}`, n))
+			err = putJSON(pre+"b", `{"Value":`+bJSON(n)+`}`)
 		case "sb":
-			err = config.SetConfigOption(pre+"b", fmt.Sprintf("t%d", n))
+			err = config.SetConfigOption(pre+"b", bVal(n))
+		case "pi": // database put with a value the option's validation refuses: nothing delivered
+			err = putJSON(pre+"a", `{"Value":"NOT VALID!"}`)
+		case "pw": // database put with a Value of the wrong type for option b: refused, nothing delivered
+			err = putJSON(pre+"b", `{"Value":`+bWrong+`}`)
+		case "ti", "tb", "ta": // type selectors (looked at before the options are registered)
 		case "rc":
 			config.ReplaceConfig(map[string]interface{}{pre + "a": fmt.Sprintf("r%d", n)})
 		case "px": // unregistered option
@@ -184,9 +215,9 @@ func monitorCfgOps(line, out string) (sig, what string) {
 			p = b
 		case "rc":
 			e, p = a, a+","+b
-		case "px":
+		case "px", "pw", "pi":
 			res = "err"
-		case "gt":
+		case "gt", "ti", "tb", "ta":
 		}
 		x := ""
 		if cancelled {
